@@ -31,6 +31,15 @@ def services(v, drv, d, tier, seed):
               services_stats=stats)
 
 
+    # a CONNECT that passed the credential check of one route while that route's owner closes (accepting goroutine parked
+    # right before the hand-off): it must end there, never at the proxy of another route for the same host
+    if not v.violations:
+        hf = d / "handoff-auth.ndjson"
+        p = vlib.run_driver(drv, ["handoff", "-rounds", 3 if tier == "quick" else 12, "-paths", "vhost-tcpmux-auth", "-out", hf], timeout=1200)
+        sc.parse_stats(p.stdout, stats)
+        sc.validate(v, "Trace_HandOff", (vlib.SPEC / "Trace_HandOff.cfg").read_text(), hf, "credential-checked CONNECT vs a closing route")
+
+
 def run(tier, seed):
     rc.run("C07", tier, seed, "serve,serve,serve,tcpmuxauth", extra=services)
 
